@@ -197,7 +197,34 @@ class BuiltinMixin:
 
     def b_isinstance(self, st, args, kwargs):
         v, typ = args
+        # isinstance(obj, C) with C an abstract base class (a class with ABCMeta: here, a repo class
+        # deriving from a collections.abc class) and type(obj) is not C: ABCMeta.__instancecheck__
+        # reads obj.__class__ FIRST -- through obj's own __getattribute__ when it defines one
+        # (StrictUndefined refuses it with UndefinedError)
+        if isinstance(v, VRef) and isinstance(st.deref(v), HObj) and st.deref(v).cls[0].startswith("liquid"):
+            h = st.deref(v)
+            targets = list(typ.items) if isinstance(typ, VTuple) else [typ]
+            abc_targets = [t for t in targets if isinstance(t, VClass) and t.module.startswith("liquid") and (t.module, t.name) != tuple(h.cls)
+                           and any(n_ in ABC_TABLE for _m, n_ in load.mro(t.module, t.name))]
+            if abc_targets and load.find_method(h.cls[0], h.cls[1], "__getattribute__") is not None:
+                out = []
+                for s, r in self.get_attr(st, v, "__class__"):
+                    out.append((s, r) if isinstance(r, Raised) else (s, VBool(self.isinstance_cond(s, v, typ))))
+                return out
         return [(st, VBool(self.isinstance_cond(st, v, typ)))]
+
+    def b_issubclass(self, st, args, kwargs):
+        """issubclass(C, D) for classes known to the engine (repo classes through the real MRO);
+        no instance is involved, so no __class__ / __getattribute__ hook runs"""
+        c_, d_ = args
+        targets = list(d_.items) if isinstance(d_, VTuple) else [d_]
+        if isinstance(c_, VClass) and all(isinstance(t, VClass) for t in targets):
+            names = {(m_, n_) for m_, n_ in load.mro(c_.module, c_.name)}
+            return [(st, VBool(z3.BoolVal(any((t.module, t.name) in names or t.name in {n_ for _m, n_ in names} for t in targets))))]
+        if isinstance(c_, VConst) and isinstance(c_.py, tuple) and c_.py and c_.py[0] == "classof":
+            # type(v) of a value that is not an instance of a repo class: same as isinstance(v, D)
+            return [(st, VBool(self.isinstance_cond(st, c_.py[1], d_)))]
+        raise Unsupported(f"issubclass({c_!r}, {d_!r})")
 
     def b_hasattr(self, st, args, kwargs):
         v, name = args
